@@ -166,6 +166,9 @@ func (p *Prog) computeWriteSets() {
 						if s.Dir == types.SendOnly {
 							w.add("ghost:sent<" + chanKey(s.Chan.Type()) + ">")
 							w.add("ghost:last<" + chanKey(s.Chan.Type()) + ">")
+						} else {
+							w.add("ghost:taken<" + chanKey(s.Chan.Type()) + ">")
+							w.add("ghost:lasttaken<" + chanKey(s.Chan.Type()) + ">")
 						}
 					}
 				case *ssa.MakeClosure:
@@ -179,6 +182,10 @@ func (p *Prog) computeWriteSets() {
 					cc = &x.Call
 				case *ssa.Go:
 					cc = &x.Call
+					w.add("ghost:spawnedTotal")
+					if sf, ok := x.Call.Value.(*ssa.Function); ok && !x.Call.IsInvoke() {
+						w.add("ghost:spawned:" + sf.Name())
+					}
 				case *ssa.Defer:
 					cc = &x.Call
 				}
